@@ -247,10 +247,16 @@ func (m *Machine) AnalyseRaces(solverKind string, st *smt.Stats) ([]RaceReport, 
 						if b.site < a.site {
 							sk = b.site + " | " + a.site
 						}
-						if seenSites[sk] >= 3 {
+						// (the instance limit is per pair of code sites *and* kinds of access:
+						// delete/delete instances must not use up the budget of len/delete)
+						lk := sk + " # " + a.what + " / " + b.what
+						if b.site < a.site {
+							lk = sk + " # " + b.what + " / " + a.what
+						}
+						if seenSites[lk] >= 3 {
 							continue
 						}
-						seenSites[sk]++
+						seenSites[lk]++
 						cands = append(cands, pair{a, b})
 					}
 				}
@@ -258,6 +264,13 @@ func (m *Machine) AnalyseRaces(solverKind string, st *smt.Stats) ([]RaceReport, 
 		}
 	}
 	stats.Candidates = len(cands)
+	if os.Getenv("VERIF_RACE_DEBUG") == "2" {
+		for _, e := range r.events {
+			if (e.kind == evRead || e.kind == evWrite) && strings.HasPrefix(e.what, "map") {
+				fmt.Fprintf(os.Stderr, "  acc ev%d g%d %s loc=%p lib=%v %s\n", e.id, e.g, e.what, e.loc, e.lib, e.site)
+			}
+		}
+	}
 	if len(cands) == 0 {
 		return nil, stats, nil
 	}
